@@ -31,11 +31,15 @@ Top(s) == s[Len(s)]
 \* the text (value) a generated token of a kind carries at input position i - the Go harness
 \* concretises with the same scheme (harness/pools.go), so trees are comparable field by field
 TokVal(kind, i) ==
-  CASE kind = "word"   -> IF i % 3 = 1 THEN "w*" \o ToString(i) ELSE "w" \o ToString(i)       \* typed w\*1: an escaped wildcard
-    [] kind = "quoted" -> CASE i % 4 = 1 -> "q*" \o ToString(i)                                  \* "q*1" - not a pattern
-                            [] i % 4 = 2 -> "q " \o ToString(i)
-                            [] i % 4 = 3 -> "/q" \o ToString(i) \o "/"                            \* "/q3/" - not a regexp
-                            [] OTHER     -> ToString(i)                                          \* "4" - not a number
+  CASE kind = "word"   -> CASE i % 4 = 1 -> "w*" \o ToString(i)                                  \* typed w\*1: an escaped wildcard
+                            [] i % 4 = 2 -> "w" \o ToString(i) \o ":"                          \* typed w2\: : ends in an escaped colon
+                            [] i % 4 = 3 -> "w(" \o ToString(i)                                  \* typed w\(3: an escaped parenthesis
+                            [] OTHER     -> "w" \o ToString(i)
+    [] kind = "quoted" -> CASE i % 5 = 1 -> "q*" \o ToString(i)                                  \* "q*1" - not a pattern
+                            [] i % 5 = 2 -> "q " \o ToString(i)
+                            [] i % 5 = 3 -> "/q" \o ToString(i) \o "/"                            \* "/q3/" - not a regexp
+                            [] i % 5 = 4 -> "it's " \o ToString(i)                               \* "it's 4" - the other quote character inside
+                            [] OTHER     -> ToString(i)                                          \* "5" - not a number
     [] kind = "wild"   -> IF i % 2 = 0 THEN "w" \o ToString(i) \o "\\\\*" ELSE "w" \o ToString(i) \o "*"   \* w2\\* : an escaped backslash, then a wildcard
     [] kind = "star"   -> "*"
     [] kind = "regexp" -> "/r" \o ToString(i) \o "/"
